@@ -25,7 +25,7 @@ def place_expr(body, p, depth=0):
             return ("local", l)
         rv = sd[2]
         if isinstance(rv, Term):
-            return ("call", rv.callee, [expr_of(body, a, depth + 1) for a in rv.args], rv.d["cargs"])
+            return ("call", rv.callee, [expr_of(body, a, depth + 1) for a in rv.args], rv.d["cargs"], rv.d["atys"])
         return rvalue_expr(body, rv, depth + 1, l)
     # tuple field .0 of a checked-arithmetic result
     if len(projs) == 1 and projs[0][0] == "f":
@@ -36,7 +36,18 @@ def place_expr(body, p, depth=0):
                 return ("bin", rv[1][:-len("WithOverflow")], expr_of(body, rv[2], depth + 1), expr_of(body, rv[3], depth + 1))
             return ("unknown",)
     root = body.root_place(p)
-    return ("place", root[0], tuple(tuple(e) if isinstance(e, list) else e for e in root[1]))
+    projs = tuple(tuple(e) if isinstance(e, list) else e for e in root[1])
+    base = place_expr(body, [root[0], []], depth + 1) if root[0] != l or not projs else \
+        (("param", l) if 0 < l <= body.argc else _local_or_call(body, l, depth))
+    return ("proj", base, projs)
+
+
+def _local_or_call(body, l, depth):
+    sd = body.single_def(l)
+    if sd is not None and isinstance(sd[2], Term):
+        rv = sd[2]
+        return ("call", rv.callee, [expr_of(body, a, depth + 1) for a in rv.args], rv.d["cargs"], rv.d["atys"])
+    return ("local", l)
 
 
 def rvalue_expr(body, rv, depth, l=None):
@@ -82,8 +93,24 @@ def show(body, e):
         return str(e[2]) if e[2] is not None else f"const:{e[1]}"
     if k in ("param", "local"):
         return body.local_name(e[1])
-    if k == "place":
-        return body.place_str([e[1], [x if isinstance(x, str) else list(x) for x in e[2] if x != "&"]])
+    if k == "proj":
+        s = show(body, e[1])
+        for x in e[2]:
+            if x == "*":
+                s = f"(*{s})"
+            elif x == "&":
+                s = f"&{s}"
+            elif x == "deref()":
+                s = f"{s}.deref()"
+            elif x[0] == "f":
+                s = f"{s}.{x[2] if x[2] is not None else x[1]}"
+            elif x[0] == "d":
+                s = f"({s} as {x[2]})"
+            elif x[0] == "i":
+                s = f"{s}[{body.local_name(x[1])}]"
+            else:
+                s = f"{s}.?"
+        return s
     if k == "bin":
         return f"({show(body, e[2])} {e[1]} {show(body, e[3])})"
     if k == "un":
@@ -96,4 +123,8 @@ def show(body, e):
         return "&" + show(body, e[1])
     if k == "disc":
         return f"discr({show(body, e[1])})"
+    if k == "agg":
+        kd = e[1]
+        nm = kd[3] if kd[0] == "adt" else kd[0]
+        return f"{nm}({', '.join(show(body, a) for a in e[2])})"
     return "?"
